@@ -1,4 +1,5 @@
 import Sqfs.Proofs.ObjConstruct
+import Sqfs.Proofs.ObjView
 import Sqfs.Proofs.ObjKinds
 /-!
 C19 — copies of library objects are well-formed, equivalent, independent and safely destroyable.
@@ -142,6 +143,21 @@ theorem refcount_exact (h : Heap) (U : Nat → Nat) (x : Nat) (ox : Obj) (hb : B
   obtain ⟨h1, h2, h3, _, _, _⟩ := hb.live x ox hx (by simp)
   exact ⟨by simpa using h3, h1, h2⟩
 
+/-- `copy_equiv` (object level): right after `sqfs_copy` the copy observes through every buffer slot and every
+internal pointer exactly what the original observes, and the original observes what it observed before. Every
+operation of the kinds is a function of these observations (and of the immutable shared file / the stateless
+compressor), so equal observations give equal answers to every later operation sequence; by `copy_independent`
+operations on one side never change the other side's observations. -/
+theorem copy_equiv (h : Heap) (U : Nat → Nat) (o : Nat) (ob : Obj)
+    (hb : Balanced h U) (hbud : h.budget = none) (hox : h.objs o = some ob) (hsh : ShapeOk (desc ob.kind) ob) :
+    ∃ h' c, sqfsCopyTop desc h o = (h', some c) ∧ view h' c = view h o ∧ view h' o = view h o := by
+  obtain ⟨h', c, he, _, _, _⟩ := copy_balanced h U o hb hbud (by simp [hox])
+  have hlt : o < h.nobj := hb.bound o (by simp [hox])
+  obtain ⟨k, hk⟩ : ∃ k, h.nobj = k + 1 := ⟨h.nobj - 1, by omega⟩
+  have he' : sqfsCopy desc (k + 1) h o = (h', some c) := by rw [← hk]; exact he
+  obtain ⟨v1, v2⟩ := sqfsCopy_view desc desc_wellformed k hb hbud hox (by omega) hsh.1 hsh.2.1 hsh.2.2 he'
+  exact ⟨h', c, he, v1, v2⟩
+
 /-- `copy_independent`: in a balanced heap — in particular after `copy_balanced` — the owned buffers of two
 different objects are disjoint, so any sequence of stores through the slots and internal pointers of one object
 leaves what the other can observe of its buffers unchanged (and the heap balanced). -/
@@ -194,6 +210,16 @@ example : ∃ h U, Balanced h U ∧ h.budget = none ∧ (h.objs 4).map (·.refs)
     simp [e, hU4]
   · have e : (construct envHeap .dirReader 0 1).2 = 4 := by decide
     simp [e, h0]
+
+/-- the only kind with internal pointers, the xattr writer, is built in the shape its description expects -/
+example : ∀ ob, (construct Heap.empty .xattrWriter 0 0).1.objs 0 = some ob → ShapeOk (desc ob.kind) ob := by
+  intro ob hob
+  have : ob = ⟨.xattrWriter, 1, true, true, [none, none, some 0, none, some 1], [none, none, some 1], []⟩ := by
+    have e : (construct Heap.empty .xattrWriter 0 0).1.objs 0 = some ⟨.xattrWriter, 1, true, true, [none, none, some 0, none, some 1], [none, none, some 1], []⟩ := by decide
+    rw [e] at hob; exact (Option.some.inj hob).symm
+  subst this
+  refine ⟨by decide, by decide, ?_⟩
+  decide
 
 /-- … and copying that reader, then releasing original and copy in either order, is covered -/
 example : ∃ h' c, sqfsCopyTop desc (construct envHeap .dirReader 0 1).1 4 = (h', some c) ∧ c = 7 := by
